@@ -191,7 +191,7 @@ def canary_check(ex):
 def replay_c01(r):
     sys.path.insert(0, os.path.join(runner.VERIF, 'replay'))
     import c01
-    return c01.search(r.model, 400)
+    return c01.search(getattr(r, 'model', None), 600)
 
 
 def build(tier, seed):
@@ -205,6 +205,8 @@ def build(tier, seed):
                 'placement/objects/consumer.py:Consumer.increment_generation'])
     chk.canary('canary.check.capacity', canary_check)
     chk.replayer('C01.', replay_c01)
+    chk.fallback('B4.c01.boundary_grid', lambda: replay_c01(None),
+                 'one provider, one class, 15 inventories x 2 prior usages x <= 19 boundary requests (PUT / POST with 1-2 consumers), <= 600 requests')
     chk.assume('A-int', 'A-real', 'A-sql', 'A-sum', 'A-key', 'A-heap',
                'A-order', 'A-txn')
     return chk
